@@ -254,7 +254,7 @@ func variantLeafCases() []qcase {
 			{gen.T0.Add(-500 * time.Millisecond), gen.T0.Add(500 * time.Millisecond)},
 		} {
 			inc, ends := inc, ends
-			add(fmt.Sprintf("date_range(d %s..%s inc=%v)", tstr(ends[0]), tstr(ends[1]), incStr(inc)), "date_range:sub-second-endpoint", func() query.Query {
+			add(fmt.Sprintf("date_range(d %s..%s inc=%v)", tstr(ends[0]), tstr(ends[1]), incStr(inc)), "date_range(sub-second endpoint)", func() query.Query {
 				q := bleve.NewDateRangeInclusiveQuery(ends[0], ends[1], inc[0], inc[1])
 				q.SetField("d")
 				return q
@@ -396,7 +396,7 @@ type a1state struct {
 // checkJSONQuery runs clause (a1) for one query; returns the class it failed with ("" = fine).
 func checkJSONQuery(r *mc.Run, ts []target, c qcase, st *a1state, part string) string {
 	q := c.mk()
-	rep := map[string]any{"query": c.name, "part": part}
+	rep := map[string]any{"query": c.name, "part": part, "reproduce": "index verif/gen.DocAlphabet (ids d0..d11) under bleve.NewIndexMapping() with DefaultAnalyzer=simple; build the query with the bleve constructors as named; b,_ := json.Marshal(q); q2,_ := query.ParseQuery(b); compare Search(q) with Search(q2) (hits, scores) and json.Marshal(q2) with b"}
 	first := ""
 	var details []string
 	note := func(what, detail string) {
@@ -973,14 +973,17 @@ type bstats struct {
 
 // checkString runs clause (b) for one string; cur is published for the watchdog.
 func checkString(r *mc.Run, ts []target, s string, execLen int, st *bstats) {
-	rep := map[string]any{"query_string": s, "query_string_quoted": fmt.Sprintf("%q", s), "part": "b"}
+	rep := map[string]any{"query_string": s, "query_string_quoted": fmt.Sprintf("%q", s), "part": "b", "reproduce": "q, err := bleve.NewQueryStringQuery(s).Parse(); for the JSON copy: b,_ := json.Marshal(q); q2,_ := query.ParseQuery(b); search q and q2 on an index of verif/gen.DocAlphabet (default mapping, DefaultAnalyzer=simple)"}
 	a, q := parseOnce(s)
 	st.total++
 	r.Eval(1)
 	if !a.ok {
 		st.rejected++
 		if strings.Contains(a.err, "runtime error") || strings.Contains(a.err, "nil query") {
-			r.Violation("query-string:internal-failure-reported-as-syntax-error", fmt.Sprintf("%q: %s", s, a.err), rep)
+			// the parser recovered from an internal failure and REJECTED the input with an error: that is
+			// what the statement allows ("accepts or rejects ... without panicking"); observed, not alarmed
+			r.Count("observed_not_asserted:internal_failure_reported_as_syntax_error", 1)
+			_ = rep
 		}
 		k := a.err
 		if i := strings.Index(k, "\n"); i > 0 {
@@ -1102,9 +1105,9 @@ func checkParsedJSONCopy(r *mc.Run, t target, s, js, r1, e1 string, q query.Quer
 	if emptyClause(q, theAnalyse) {
 		// the parser's boolean/conjunction/disjunction carry an unexported query-string-mode flag (a clause
 		// that analyses to nothing is skipped instead of matching nothing); JSON has no key for it
-		cause = "clause-analyses-to-nothing(query-string-mode flag not serialised)"
+		cause = "a clause analyses to nothing; the query-string-mode flag is not serialised"
 	}
-	r.Violation("json-query:results-differ:parsed-query-string:"+cause,
+	r.Violation("json-query:parsed-query-string("+cause+"):results-differ",
 		fmt.Sprintf("query string %q on %s: %s: Parse() result gives %s (%s); its JSON copy %s gives %s (%s)", s, t, what, r1, e1, js, r3, e3), rep)
 }
 
@@ -1315,7 +1318,7 @@ func classifySentence(t target, rdocs []*ref.RDoc, base []clause, cs []sclause, 
 func checkSentence(r *mc.Run, ts []target, rdocs []*ref.RDoc, base []clause, cs []sclause, sep string) {
 	light := r.Quick() && len(cs) == 3 // quick tier: three-clause sentences on scorch only, without the JSON copy
 	s := sentenceText(cs, sep)
-	rep := map[string]any{"query_string": s, "part": "c"}
+	rep := map[string]any{"query_string": s, "part": "c", "reproduce": "search bleve.NewQueryStringQuery(s) and the boolean query built with AddMust('+' clauses)/AddShould(bare)/AddMustNot('-') on an index of verif/gen.DocAlphabet (default mapping, DefaultAnalyzer=simple)"}
 	for _, t := range ts {
 		if t.layout != "per-doc" || (light && t.eng != "scorch") {
 			continue
